@@ -109,6 +109,10 @@ def _check_case(case, front):
 def gen(r):
     if r.random() < 0.03:
         return dict(oc.collapse_prone_case(r), solve=r.random() < 0.5, listener=r.random() < 0.5)
+    if r.random() < 0.05:
+        # a HUGE penalty value on a band of the box: differences overflow, characteristics become NaN (repaired defects F11, F13): the
+        # record must stay a faithful record of the trials made
+        return oc.band_case(r)
     n = r.choice((1, 1, 2, 2, 3, 4, 5))
     spec = oc.step_spec(r, n) if r.random() < 0.12 else None
     case = oc.gen_case(r, n=n, spec=spec, lim=r.choice([2, 3, 5, 8, 17, 40, 80, 150, 400]))
